@@ -2,20 +2,24 @@ use crate::report::Report;
 
 pub mod c01;
 pub mod c04;
+pub mod c08;
 pub mod c09;
 pub mod c10;
 pub mod c14;
 pub mod c15;
+pub mod c20;
 
 type RunFn = fn(&Report);
 
 pub const CHECKS: &[(&str, &str, RunFn)] = &[
     ("C01", "fault_enumeration", c01::run),
     ("C04", "exploration", c04::run),
+    ("C08", "fault_enumeration", c08::run),
     ("C09", "exploration", c09::run),
     ("C10", "exploration", c10::run),
     ("C14", "exploration", c14::run),
     ("C15", "exploration", c15::run),
+    ("C20", "exploration", c20::run),
 ];
 
 pub fn lookup(check: &str) -> Option<(&'static str, &'static str)> {
